@@ -416,7 +416,7 @@ def rewrite_forloops(text, contracts, counts):
     return text
 
 
-def apply_rewrites(lines, counts, extra_rules=(), contracts=None):
+def apply_rewrites(lines, counts, extra_rules=(), contracts=None, cfg=None):
     text = '\n'.join(l.text for l in lines)
     n0 = text.count('\n')
     text = rewrite_mut_self(text, counts)
@@ -426,7 +426,8 @@ def apply_rewrites(lines, counts, extra_rules=(), contracts=None):
         if k:
             counts[name] = counts.get(name, 0) + k
     text = rewrite_impl_trait_args(text, counts)
-    text = rewrite_twins(text, counts)
+    if cfg is None or cfg.get('batch', True):
+        text = rewrite_twins(text, counts)
     text = rewrite_question_mark(text, counts, contracts or {})
     text = rewrite_forloops(text, contracts or {}, counts)
     if text.count('\n') != n0:
@@ -454,12 +455,21 @@ class Contract:
         self.forloops = OrderedDict()  # ordinal -> (itname, mode)
         self.pre = OrderedDict()       # ordinal -> lines placed inside the desugared block before the loop
         self.post = OrderedDict()      # ordinal -> lines placed inside the desugared block after the loop
+        self.inbody = OrderedDict()    # ordinal -> lines placed at the start of the body of desugared for-loop N
         self.onerr = []                # proof text placed in every early-return arm of `?`
         self.fornames = OrderedDict()  # ordinal -> ghost iterator name for a native `for` loop
         self.props = []
 
 
-def parse_vc(path):
+def cfg_holds(expr, cfg):
+    """`when` conditions: any | batch | nobatch | ptr16 | noptr16 (space separated = conjunction)"""
+    ok = True
+    for w in expr.split():
+        ok = ok and {'any': True, 'batch': cfg['batch'], 'nobatch': not cfg['batch'], 'ptr16': cfg['ptr16'], 'noptr16': not cfg['ptr16']}[w]
+    return ok
+
+
+def parse_vc(path, cfg=None):
     """Returns (fn_contracts: key->Contract, injections: list of (kind, key, text, src))."""
     fns = OrderedDict()
     inj = []
@@ -467,12 +477,17 @@ def parse_vc(path):
     sect = None
     buf = None
     mode = None
+    active = True
     for ln_no, raw in enumerate(open(path).read().split('\n'), 1):
         ln = raw.rstrip()
         s = ln.strip()
+        if mode is None and s.startswith('when '):
+            active = cfg_holds(s[5:], cfg) if cfg is not None else True
+            continue
         if mode == 'inject':
             if s == 'end':
-                inj.append((cur[0], cur[1], '\n'.join(buf), '%s:%d' % (os.path.basename(path), cur[2])))
+                if active:
+                    inj.append((cur[0], cur[1], '\n'.join(buf), '%s:%d' % (os.path.basename(path), cur[2])))
                 mode = None
                 cur = None
             else:
@@ -518,6 +533,8 @@ def parse_vc(path):
                     sect = cur.pre.setdefault(int(arg), [])
                 elif kw == 'post':
                     sect = cur.post.setdefault(int(arg), [])
+                elif kw == 'inbody':
+                    sect = cur.inbody.setdefault(int(arg), [])
                 elif kw == 'onerr':
                     sect = cur.onerr
                 elif kw == 'body':
@@ -546,9 +563,10 @@ def parse_vc(path):
         if m:
             key = m.group(1).strip()
             cur = Contract(key, '%s:%d' % (os.path.basename(path), ln_no))
-            if key in fns:
-                raise Undecided('%s:%d: duplicate contract for %s' % (path, ln_no, key))
-            fns[key] = cur
+            if active:
+                if key in fns:
+                    raise Undecided('%s:%d: duplicate contract for %s' % (path, ln_no, key))
+                fns[key] = cur
             mode = 'fn'
             continue
         m = re.match(r'^in\s+(mod|trait|impl|crate)\s*(\S.*)?$', ln)
@@ -563,12 +581,12 @@ def parse_vc(path):
     return fns, inj
 
 
-def load_contracts(cdir):
+def load_contracts(cdir, cfg=None):
     fns = OrderedDict()
     inj = []
     for f in sorted(os.listdir(cdir)):
         if f.endswith('.vc'):
-            a, b = parse_vc(os.path.join(cdir, f))
+            a, b = parse_vc(os.path.join(cdir, f), cfg)
             for k, v in a.items():
                 if k in fns:
                     raise Undecided('duplicate contract for %s' % k)
@@ -577,13 +595,19 @@ def load_contracts(cdir):
     return fns, inj
 
 
-def load_externals(path):
+def load_externals(path, cfg=None):
     res = []
     if not os.path.exists(path):
         return res
+    active = True
     for ln in open(path):
         ln = ln.rstrip('\n')
         if not ln.strip() or ln.strip().startswith('#'):
+            continue
+        if ln.startswith('when '):
+            active = cfg_holds(ln[5:].partition('#')[0], cfg) if cfg is not None else True
+            continue
+        if not active:
             continue
         body, _, why = ln.partition('#')
         kind, key = body.split(None, 1)
@@ -710,11 +734,20 @@ def splice(lines, contracts, injections, counts, report, externals=(), canary=Fa
                     ins.append((st_, 0, 'let %s = ' % c.tail[0], tag))
                     ins.append((en_, 1, ';\n' + '\n'.join(c.tail[1]) + '\n' + c.tail[0] + '\n', tag))
                     counts['R21:tail-bound'] = counts.get('R21:tail-bound', 0) + 1
-        if c.loops or c.pre or c.post:
+        if c.loops or c.pre or c.post or c.inbody:
             if not f.has_body:
                 lost.append('fn %s: loop clauses but no body' % key)
                 continue
             loops = rsscan.find_loops(m, f.open + 1, f.close)
+            for ordn, body in c.inbody.items():
+                if ordn < 1 or ordn > len(loops):
+                    lost.append('fn %s: loop %d not found for inbody' % (key, ordn))
+                    continue
+                mo_ = re.compile(r'Some\s*\([^=]*\)\s*=>\s*\{').search(m, loops[ordn - 1][2], loops[ordn - 1][3])
+                if not mo_:
+                    lost.append('fn %s: loop %d is not a desugared for-loop (inbody)' % (key, ordn))
+                    continue
+                ins.append((mo_.end(), 0, '\n' + '\n'.join(body) + '\n', tag))
             for ordn, body in c.loops.items():
                 if ordn < 1 or ordn > len(loops):
                     lost.append('fn %s: loop %d not found (%d loops)' % (key, ordn, len(loops)))
@@ -997,12 +1030,12 @@ def extract(repo, verif, cfg, extra_external=(), canary=False):
     lines = []
     load_file(src_root, 'lib.rs', [], cfg, counts, lines)
     drop_inline_mod(lines, '_mock', counts)
-    contracts, injections = load_contracts(os.path.join(verif, 'contracts', 'verus'))
-    apply_rewrites(lines, counts, contracts=contracts)
+    contracts, injections = load_contracts(os.path.join(verif, 'contracts', 'verus'), cfg)
+    apply_rewrites(lines, counts, contracts=contracts, cfg=cfg)
     macro_wrap(lines, counts)
     macro_external(lines, counts)
     ghost_fields(lines, counts)
-    externals = load_externals(os.path.join(verif, 'contracts', 'verus', 'externals.txt'))
+    externals = load_externals(os.path.join(verif, 'contracts', 'verus', 'externals.txt'), cfg)
     externals = list(externals) + list(extra_external)
     report['externals'] = externals
     body = splice(lines, contracts, injections, counts, report, externals, canary=canary)
